@@ -279,7 +279,9 @@ pub fn run_scenario(sb: &mut Sandbox, gens: &[Gen], sc: &Scenario) -> Eval {
                 if !is_prev {
                     ev.findings.push(("publish:failed-generation-touched-output".into(), format!("{tag}: generation failed before publishing, yet the output changed")));
                 }
-                let left: Vec<&&String> = fresh.iter().filter(|n| n.contains(".staging-")).collect();
+                // name-independent: any sibling entry this run created and left next to the output
+                // (whatever the staging directory is called) is a staging leftover
+                let left: Vec<&&String> = fresh.iter().filter(|n| work.join(n.as_str()) != staging).collect();
                 if !left.is_empty() && !cleanup_faulted {
                     ev.findings.push(("publish:staging-left-behind".into(), format!("{tag}: generation failed ({}) and left {:?} behind", res.error, left)));
                 }
